@@ -413,19 +413,52 @@ func c06Build(kind int, as2 bool, m c06MsgSpec) *c06Built {
 		switch f.Kind {
 		case fFlags:
 			idx := known()
+			if f.Target >= 8 {
+				// ... or on MP_REACH_NLRI / MP_UNREACH_NLRI (the NLRI can still be located: treat-as-withdraw, RFC 7606 3.c)
+				var mp []int
+				for i, a := range attrs {
+					if (a.Type == 14 || a.Type == 15) && !touched[a.Type] && !a.dup {
+						mp = append(mp, i)
+					}
+				}
+				if len(mp) > 0 {
+					idx = mp
+				}
+			}
 			if len(idx) == 0 {
 				b.skipped++
 				continue
 			}
 			i := idx[f.Target%len(idx)]
-			if f.Arg%2 == 0 {
+			switch f.Arg % 3 {
+			case 0:
 				attrs[i].Flags ^= 0x80
-			} else {
+			case 1:
 				attrs[i].Flags ^= 0x40
+			default:
+				// the Partial bit where it must be 0 (RFC 4271 4.3): well-known and optional non-transitive attributes
+				var must0 []int
+				for _, j := range idx {
+					if attrs[j].Flags&0x80 == 0 || attrs[j].Flags&0x40 == 0 {
+						must0 = append(must0, j)
+					}
+				}
+				if len(must0) == 0 {
+					attrs[i].Flags ^= 0x80
+				} else {
+					i = must0[f.Target%len(must0)]
+					attrs[i].Flags |= 0x20
+				}
 			}
 			attrs[i].bad = true
 			touched[attrs[i].Type] = true
-			note(c06TAW, f, fmt.Sprintf("type %d flags %#x", attrs[i].Type, attrs[i].Flags), 4)
+			if attrs[i].Type == 14 || attrs[i].Type == 15 {
+				// the prefixes a refused MP attribute names cannot be handed to treat-as-withdraw: the reaction of its
+				// own class (RFC 7606 5.3: the NLRI of the UPDATE cannot be determined)
+				note(c06Reset, f, fmt.Sprintf("type %d flags %#x", attrs[i].Type, attrs[i].Flags), 4)
+			} else {
+				note(c06TAW, f, fmt.Sprintf("type %d flags %#x", attrs[i].Type, attrs[i].Flags), 4)
+			}
 		case fLen:
 			idx := known()
 			var cand []int
